@@ -273,6 +273,7 @@ func VH_C14_generic() {
 	}
 	data := vBytes("d", T)
 	key := vU8("key")
+	gbPos := -10
 	switch kind {
 	case 0:
 		// well-formed UTF-16BE: units at even offsets; high surrogate followed by low surrogate
@@ -303,6 +304,7 @@ func VH_C14_generic() {
 		pos := vInt("pos")
 		vAssume(pos >= 130 && pos <= 134)
 		pos = vConcretize(pos)
+		gbPos = pos
 		for i := 0; i < T; i++ {
 			switch i {
 			case pos:
@@ -317,9 +319,11 @@ func VH_C14_generic() {
 	}
 	parts := splitWithUDHI(data, per, key)
 	vObserve("nparts", len(parts))
+	cut := 0
 	for idx := 0; idx+1 < len(parts); idx++ {
 		p := parts[idx]
 		last := p[len(p)-1]
+		cut += len(p) - 6 // stream offset at which this part ends
 		switch kind {
 		case 0:
 			vAssert("C14.generic.ucs2.part-does-not-end-in-high-surrogate", vNot(vAnd(p[len(p)-2] >= 0xD8, p[len(p)-2] <= 0xDB)))
@@ -327,7 +331,7 @@ func VH_C14_generic() {
 			vAssert("C14.generic.gsm7-unpacked.part-does-not-end-in-escape", last != 0x1B)
 		case 2:
 			// the only octet >= 0x81 followed by a trail octet is the lead of the two-octet character
-			vAssert("C14.generic.gb18030.part-does-not-end-in-lead-octet", vNot(vAnd(last >= 0x81, parts[idx+1][6] >= 0x40)))
+			vAssert("C14.generic.gb18030.part-does-not-end-in-lead-octet", cut != gbPos+1)
 		}
 	}
 	vReach("end")
